@@ -1,5 +1,6 @@
 """C17 — Measurement helpers sample on the documented cadence and report true averages."""
 from checks import pure_fns
+from checks import api_cov
 LEAN_TARGETS = ["QmcProps.C17", "drv_c17"]
 BINS = ["c17"]
 
@@ -63,4 +64,5 @@ def main(ck):
         "get_energy_for_average_n is -(avg/beta)+offset (true of QmcIsingGraph and Qmc; the mock implements the same formula)",
         "thread scheduling of rayon is modelled as an arbitrary schedule of per-replica single steps; the real parallel driver is observed, not verified",
     ]
+    api_cov.run(ck, "c17")   # otherwise unexercised public API, model-free oracles of this property
     return ck.finish(RULE)
